@@ -2,6 +2,7 @@
 
 A problem is a JSON-able dict; all coefficients derive from a drawn integer seed, so a case replays exactly.
   family   'lin'  f = A x + c            'quad'  f = A x + B (x*x) + c        'trig'  f = sin(A x) + c
+           'exp'  f = exp(A x / 4 + c / 2)  (positive; targets listed in spec['log_targets'] are optimize_log targets)
   shape    'full' | 'dup-rows' (inconsistent unless targets agree) | 'dep-cols' (rank deficient)
 The user function is evaluated here with numpy, independently of xdeps; each family knows its Jacobian.
 """
@@ -55,6 +56,10 @@ def make_function(spec):
     if fam == "trig":
         return (lambda x: np.sin(A @ np.asarray(x, float)) + c), \
                (lambda x: np.cos(A @ np.asarray(x, float))[:, None] * A)
+    if fam == "exp":
+        # strictly positive: the only family on which Target(optimize_log=True) is defined
+        return (lambda x: np.exp(0.25 * (A @ np.asarray(x, float)) + 0.5 * c)), \
+               (lambda x: np.exp(0.25 * (A @ np.asarray(x, float)) + 0.5 * c)[:, None] * 0.25 * A)
     if fam == "bowl":
         # target 0 is linear with a unit gradient; the others are steep bowls centred at spec["centre"]:
         # f_i = s_i * |x - centre|^2.  At the centre their Jacobian rows vanish, so a Newton step driven by target 0
@@ -103,7 +108,13 @@ def build(spec, replace_disabled_target=None):
     kd = KnobDict()
     for nm, v in zip(names, spec["x0"]):
         dict.__setitem__(kd, nm, float(v))
-    repl = replace_disabled_target or {}
+    repl = dict(replace_disabled_target or {})
+    logt = set(spec.get("log_targets") or ())
+    for i in list(repl):
+        if i in logt:
+            # an optimize_log target and its value must stay positive
+            sc, sh, val = repl[i]
+            repl[i] = (abs(sc) if sc else 1.0, abs(sh), abs(val) + 0.1)
 
     class UserAction(Action):
         def __init__(self):
@@ -138,7 +149,8 @@ def build(spec, replace_disabled_target=None):
         val = spec["targets"][i]
         if i in repl:
             val = repl[i][2]
-        targets.append(act.target(i, val, tol=spec["tols"][i], weight=spec["tweights"][i], tag=f"t{i}"))
+        targets.append(act.target(i, val, tol=spec["tols"][i], weight=spec["tweights"][i], tag=f"t{i}",
+                                  **({"optimize_log": True} if i in logt else {})))
         if i in spec.get("inactive_at_construction_targets", ()):
             targets[-1].active = False
     opt = Optimize(vary=vary, targets=targets, n_steps_max=spec.get("n_steps_max", 20),
